@@ -143,6 +143,11 @@ def extra_vectors(name, rng, n=6):
         for sf, ff in ((0.00001, 1.0), (0.0005, 0.25), (1e-7, 0.999999), (rng.random() / 10 ** rng.randint(3, 9), rng.random())):
             out.append(('{"report_to": "default", "max_age": 2592000, "success_fraction": %s, "failure_fraction": %s}' % (format(sf, '.12f').rstrip('0'), repr(ff))).encode('ascii'))
         return out
+    if short == 'DnsRecordTxt':
+        # TXT data beyond 255 octets: several character-strings (DKIM keys, long SPF policies)
+        def strings(*ls):
+            return b''.join(bytes([n]) + bytes(rng.choice(b'abc=; v1') for _ in range(n)) for n in ls)
+        return [strings(255, 1), strings(200, 200), strings(255, 255, 90), strings(0, 255, 0, 7)]
     if short == 'SignedCertificateTimestamp':
         # RFC 6962 3.2: a 64-bit count of milliseconds; far-future values, where a double no longer holds a millisecond exactly
         from harness import sweep as _sweep
